@@ -243,7 +243,9 @@ class Summariser:
         if fn.is_property or fn.is_classmethod:
             return False
         # a decorator changes what calling the function means (memoisation, context managers, ...)
-        if any(d not in ("staticmethod",) for d in fn.decorators):
+        # (memoisation of a pure function does not: its hazards - I/O, shared mutable results, stale
+        # derived values - are judged by dedicated rules that look at the decorator itself)
+        if any(d not in ("staticmethod",) and not _is_cache_decorator(d) for d in fn.decorators):
             return False
         for n in ast.walk(fn.node):
             if isinstance(n, (ast.Yield, ast.YieldFrom, ast.Await)):
@@ -256,6 +258,11 @@ class Summariser:
             if isinstance(n, (ast.FunctionDef, ast.AsyncFunctionDef, ast.Lambda)) and n is not fn.node:
                 pass
         return True
+
+
+def _is_cache_decorator(d: str) -> bool:
+    head = d.split("(")[0].rsplit(".", 1)[-1]
+    return head in ("lru_cache", "cache")
 
 
 def _len_truth(test, pol):
@@ -785,8 +792,31 @@ class _Builder:
                     out.add(n.id)
         return out
 
+    def _gconst_display(self, t):
+        """A module-level constant that is a short literal tuple/list display (a dispatch table): its elements."""
+        mod = self.model.modules.get(t[1])
+        node = mod.constants.get(t[2]) if mod is not None else None
+        # only tables of code (functions / classes, possibly in tuples): plain data such as a
+        # tuple of strings stays a loop
+        def codeish(x) -> bool:
+            if isinstance(x, (ast.Tuple, ast.List)):
+                return any(codeish(y) for y in x.elts)
+            return isinstance(x, (ast.Name, ast.Attribute, ast.Lambda))
+
+        if isinstance(node, (ast.Tuple, ast.List)) and 0 < len(node.elts) <= 8 and not any(isinstance(x, ast.Starred) for x in node.elts) and all(codeish(x) for x in node.elts):
+            try:
+                low = Lowering(self.model, None, mod)
+                return low.expr(node, {})
+            except Exception:  # noqa: BLE001
+                return None
+        return None
+
     def s_For(self, st, p):
         it = self.ex(st.iter, p)
+        if op(it) == "gconst":
+            lit = self._gconst_display(it)
+            if lit is not None:
+                it = lit
         if op(it) in ("tuple", "list") and 0 < len(it[1]) <= 8 and not any(op(x) == "star" for x in it[1]) and not st.orelse:
             # a loop over a literal display is unrolled: one copy of the body per element
             paths = [p]
